@@ -72,11 +72,7 @@ ASSUMPTIONS = [
 TRUSTED = ["the rose-tree model of the transport operations (Model/C43.lean), validated against the real transport on every case",
            "Tree.changes_from (the delta is taken from the real code, not recomputed by the model)"]
 FAMILIES = {
-    "nested-rename-parent-staged-first": "a directory and an entry below it are both renamed: NoSuchFile, directory left under .tmp.* (F13)",
     "rename-into-directory-not-yet-created": "a rename whose new parent is added in the same delta or is finished later: NoSuchFile",
-    "incremental-symlink-below-root-invalidurl": "a symlink added/changed below the top level is passed to Transport.symlink with its raw target: InvalidURL",
-    "incremental-symlink-retarget-fileexists": "a symlink whose target changed is re-created without removing the old one: FileExists",
-    "full-symlink-over-file-fileexists": "full upload: _force_clear leaves a regular file where a symlink must go: FileExists",
     "renamed-entry-treated-as-file": "a renamed entry whose kind changed, or a renamed symlink whose target changed, is re-uploaded as a (empty) regular file",
     "renamed-file-mode-change-lost": "a file renamed and chmod-ed in one revision (same text) keeps its old executable bit on the remote",
     "rename-across-ignore-boundary-nosuchfile": "a rename with exactly one side ignored addresses a remote path that was never uploaded: NoSuchFile",
@@ -411,25 +407,14 @@ def classify(mode, err, delta, ents, before, names, got, exp, from_kinds):
            if not (is_ign(names, c.path[0]) and is_ign(names, c.path[1]))] if delta is not None else []
     if mode != "full":
         if err == "NoSuchFile":
-            for o1, _ in ren:
-                for o2, _ in ren:
-                    if o2.startswith(o1 + "/"):
-                        return "nested-rename-parent-staged-first"
             added = {c.path[1] for c in list(delta.added) + list(delta.copied)}
             kc_dirs = {c.path[1] for c in delta.kind_changed if c.kind[1] == "directory"}
-            news = [n for _, n in ren]
-            for i, (_, n) in enumerate(ren):
+            for _, n in ren:
                 parent = os.path.dirname(n)
                 while parent:
-                    if parent in added or parent in kc_dirs or parent in news[i + 1:]:
+                    if parent in added or parent in kc_dirs:
                         return "rename-into-directory-not-yet-created"
                     parent = os.path.dirname(parent)
-        created = [c.path[1] for c in list(delta.added) + list(delta.copied) + list(delta.kind_changed) + list(delta.modified)]
-        if err == "InvalidURL" and any(tree.get(p, ("?",))[0] == "l" and "/" in p and not is_ign(names, p) for p in created):
-            return "incremental-symlink-below-root-invalidurl"
-        if err == "FileExists" and any(tree.get(c.path[1], ("?",))[0] == "l" and not is_ign(names, c.path[1])
-                                       for c in delta.modified):
-            return "incremental-symlink-retarget-fileexists"
         removed_dirs = {c.path[0] for c in delta.removed if c.kind[0] == "directory" and not is_ign(names, c.path[0])}
         if err == "ReadError" and any(n in removed_dirs for _, n in ren):
             return "rename-onto-deleted-directory-readerror"
@@ -447,8 +432,6 @@ def classify(mode, err, delta, ents, before, names, got, exp, from_kinds):
                                for c in delta.renamed if (c.path[0], c.path[1]) in ren):
             return "renamed-file-mode-change-lost"
     else:
-        if err == "FileExists" and any(v[0] == "l" and before.get(p, ("-",))[0] == "f" for p, v in tree.items()):
-            return "full-symlink-over-file-fileexists"
         if err is None and all(got.get(p) == v for p, v in exp.items()) and set(got) - set(exp):
             return "full-upload-keeps-stale-paths"
     return None
